@@ -93,6 +93,23 @@ class SymSched(fakeos.Sched):
         self.outcome = {}         # pid -> ("exited", rc) | ("signaled", sig)
         self.launch_failed = []   # task names
         self.nspawn = 0
+        self.batch = batch
+        self.nb = 0
+
+    def exits_now(self, kernel, point, running):
+        """Batched exits: with ``batch`` a second child may exit before the one
+        SIGCHLD is delivered (kernel in adversarial mode, otherwise eager)."""
+        if not self.batch or point != "read_batch":
+            return []
+        self.nb += 1
+        if not self.g.flag("bt%d" % self.nb):
+            return []
+        if len(running) == 1:
+            return [running[0]]
+        return [running[self.g.choose("btw%d" % self.nb, len(running))]]
+
+    def deliver_now(self, kernel, point):
+        return True
 
     def launch_fails(self, kernel, argv, env):
         if not self.launch_failures:
@@ -147,7 +164,7 @@ class SymSched(fakeos.Sched):
 
 def run_graph(g, specs, root, *, again=False, jobs=None, stop_early=False, cached=(), sched=None,
               env=None, config="disable_git = true\n", clock=None, adversarial=False, check=False,
-              at_least=None, this_commit=False, proj=None, keep=False):
+              at_least=None, this_commit=False, proj=None, keep=False, unrelated=0):
     """Render the project, run the real ``cond run`` over the fake kernel."""
     import conductor.cli.run as cli_run
     own = proj is None
@@ -157,7 +174,7 @@ def run_graph(g, specs, root, *, again=False, jobs=None, stop_early=False, cache
         for j in cached:
             proj.add_version(specs[j].ident, 100 + j)
     kernel = fakeos.Kernel(sched or SymSched(g), adversarial=adversarial,
-                           clock=clock if clock is not None else fakeos.Clock())
+                           clock=clock if clock is not None else fakeos.Clock(), unrelated=unrelated)
     ns = hrun.run_ns(task_identifier=specs[root].ident, again=again, jobs=jobs, stop_early=stop_early,
                      check=check, at_least=at_least, this_commit=this_commit)
     try:
